@@ -202,6 +202,36 @@ func ruleMARKERLOOPS(c *Ctx) {
 					continue
 				}
 				lp := innermostLoop(loops, b)
+				// a test on r.RHS[e] where e does not vary in the innermost loop (RHS[len-1] inside
+				// the loop over the rules) is a test on one fixed position
+				if lp != nil && len(call.Common().Args) > 0 {
+					if ld, ok := call.Common().Args[0].(*ssa.UnOp); ok && ld.Op == token.MUL {
+						if ia, ok := ld.X.(*ssa.IndexAddr); ok && strings.HasSuffix(vpath(ia.X), ".RHS") {
+							varies := false
+							var walk func(v ssa.Value, d int)
+							walk = func(v ssa.Value, d int) {
+								if d > 4 || varies {
+									return
+								}
+								switch x := v.(type) {
+								case *ssa.Phi:
+									if lp.Body[x.Block()] {
+										varies = true
+									}
+								case *ssa.BinOp:
+									walk(x.X, d+1)
+									walk(x.Y, d+1)
+								case *ssa.Convert:
+									walk(x.X, d+1)
+								}
+							}
+							walk(ia.Index, 0)
+							if !varies {
+								lp = nil
+							}
+						}
+					}
+				}
 				if lp == nil {
 					// a marker test on one fixed position of a right-hand side (rhs[len-1], rhs[0]) looks
 					// at a marker where a symbol is meant
